@@ -13,8 +13,11 @@
 From CNV Require Import Base.Prelude Base.Str Model.IvRow Model.Intervals Model.Access
   Model.Target Model.Antitarget Spec.Cover Spec.Bins.
 From CNV Require Import Proofs.AntitargetContigs Proofs.TargetProps.
-From CNV Require Proofs.Target.
-From CNV Require Gen.BinsDefaults.
+From CNV Require Proofs.Target Proofs.TargetOrderProps Proofs.TargetSizes Proofs.TargetLabels Proofs.TargetAnnot
+  Proofs.FnBins Proofs.TargetGrouped.
+From CNV Require Import Base.QNum Model.Chromsort.
+From CNV Require Model.Ranges Spec.RangeQuery.
+From CNV Require Gen.BinsDefaults Gen.FnBins Gen.FnBinsSplit.
 
 (* `target` without --split returns the non-empty baits unchanged (same rows, same order). *)
 Theorem C12_target_nosplit : forall (avg : Q) (cut : Z -> Z -> Z -> Z) (baits : list grow),
@@ -210,3 +213,241 @@ Example C12_contigs_example :
     (Some [(0, 9000, ("chr1", "")); (0, 9000, ("chr2", "")); (0, 9000, ("chrM", "")); (0, 9000, ("chr5_GL339449_alt", ""))]%string)
   = Some [(0, 9000, ("chr1", "")); (0, 9000, ("chr2", ""))]%string.
 Proof. vm_compute. reflexivity. Qed.
+
+(* ==== extension ===================================================================================== *)
+
+(* ---- order of the chromosome blocks ------------------------------------------------------------------
+   `key_sorted t`: the Chromsort keys (sorter_chrom of the chromosome name) never decrease along t;
+   `genomic_sorted t`: every earlier row has a smaller key, or lies on the same chromosome entirely
+   before the later one.  merge() inside subdivide takes a whole-table fast path (table order kept)
+   when `all_gaps 0` holds, otherwise regroups by name and re-sorts the groups by key. *)
+
+(* target: on the fast path (and without --split) the output inherits the key order of the input,
+   on the slow path it is key-ordered whatever the input; with --split and distinct keys for
+   distinct names it is in genomic order across chromosomes *)
+Theorem C12_block_order : forall (split : bool) (avg : Q) (cut : Z -> Z -> Z -> Z) (baits : list grow),
+  (0 < avg)%Q -> (forall span n, cut_contract span n (cut span n)) ->
+  Forall (fun r => lo r <= hi r) baits ->
+  (split = false \/ all_gaps 0 (drop_zero_width baits) = true -> key_sorted baits) ->
+  let out := do_target split avg cut baits in
+  key_sorted out /\ (split = true -> key_injective baits -> genomic_sorted out).
+Proof. exact Proofs.TargetOrderProps.c12_block_order_target. Qed.
+
+(* in particular for a bait table as GenomicArray.sort leaves it, whichever path is taken *)
+Theorem C12_block_order_sorted_input : forall (split : bool) (avg : Q) (cut : Z -> Z -> Z -> Z) (baits : list grow),
+  (0 < avg)%Q -> (forall span n, cut_contract span n (cut span n)) ->
+  Forall (fun r => lo r <= hi r) baits -> genome_sorted baits ->
+  let out := do_target split avg cut baits in
+  key_sorted out /\ (split = true -> key_injective baits -> genomic_sorted out).
+Proof. exact Proofs.TargetOrderProps.c12_block_order_target_sorted. Qed.
+
+Theorem C12_block_order_slow_path : forall (avg : Q) (cut : Z -> Z -> Z -> Z) (baits : list grow),
+  all_gaps 0 (drop_zero_width baits) = false -> key_sorted (do_target true avg cut baits).
+Proof. exact Proofs.TargetOrderProps.c12_block_order_target_slow. Qed.
+
+Example C12_block_order_example :
+  do_target true (400 # 1) (fun span n i => i * span / n)
+    [(0, 300, ("chr10", "a")); (100, 900, ("chr2", "b")); (500, 600, ("chr2", "c")); (0, 10, ("chrX", "x"))]%string
+  = [(100, 500, ("chr2", "b,c")); (500, 900, ("chr2", "b,c")); (0, 300, ("chr10", "a")); (0, 10, ("chrX", "x"))]%string.
+Proof. vm_compute. reflexivity. Qed.
+
+(* antitarget: with targets and access in key order the bins are in key order, and in genomic order
+   when distinct contigs of the binned access table have distinct keys *)
+Theorem C12_block_order_anti : forall T access avg mn cut E out,
+  anti_pre T access avg cut -> effective_access T access = Some E ->
+  get_antitargets T access avg mn cut = Some out ->
+  key_sorted T -> (forall acc, access = Some acc -> key_sorted acc) ->
+  key_sorted out /\ (key_injective E -> genomic_sorted out).
+Proof. exact Proofs.TargetOrderProps.c12_block_order_anti. Qed.
+
+(* ---- annotation ----------------------------------------------------------------------------------------
+   annotate annot t models  compare_chrom_names(tgt, annotation); if len(tgt): tgt["gene"] =
+   list(annotation.into_ranges(tgt, "gene", "-"))  through the C07 model of into_ranges; rows carry no
+   index labels: the labels are assigned by position, whatever row labels the table has *)
+
+(* number and coordinates of the bins are unchanged, whatever the annotation table *)
+Theorem C12_annotate_coords : forall (annot t t' : list grow),
+  annotate annot t = AnnotRows t' -> length t' = length t /\ map coords t' = map coords t.
+Proof. exact Proofs.TargetAnnot.annotate_coords. Qed.
+
+(* ... and so for do_target with every option (split, annotate, short names) *)
+Theorem C12_options_coords : forall pick split avg cut annot short (baits out : list grow),
+  do_target_full pick split avg cut annot short baits = AnnotRows out ->
+  map coords out = map coords (do_target split avg cut baits).
+Proof. exact Proofs.TargetAnnot.do_target_full_coords. Qed.
+
+(* the label of each bin is the C07 summary of the annotation rows overlapping it *)
+Theorem C12_annotate_labels : forall (annot t : list grow),
+  Spec.RangeQuery.table_ok (trows_of annot) -> Spec.RangeQuery.grouped (trows_of t) ->
+  compare_chrom_names t annot <> None ->
+  annotate annot t = AnnotRows (map (fun b => (lo b, hi b, (chrom b, annot_label annot b))) t).
+Proof. exact Proofs.TargetAnnot.annotate_labels. Qed.
+
+(* the precondition on the bin table follows from key order and distinct keys for distinct names ... *)
+Theorem C12_annotate_grouped : forall t : list grow,
+  key_sorted t -> key_injective t -> Spec.RangeQuery.grouped (trows_of t).
+Proof. exact Proofs.TargetGrouped.grouped_of_sorted. Qed.
+
+(* ... so for do_target end to end: sorted baits, distinct keys for distinct names, an annotation table
+   as the reader leaves it, a shared chromosome name -- every bin keeps its coordinates and gets its label *)
+Theorem C12_annotate_do_target : forall (split : bool) (avg : Q) (cut : Z -> Z -> Z -> Z) (baits annot : list grow),
+  genome_sorted baits -> key_injective baits ->
+  Spec.RangeQuery.table_ok (trows_of annot) ->
+  compare_chrom_names (do_target split avg cut baits) annot <> None ->
+  annotate annot (do_target split avg cut baits)
+  = AnnotRows (map (fun b => (lo b, hi b, (chrom b, annot_label annot b))) (do_target split avg cut baits)).
+Proof. exact Proofs.TargetGrouped.annotate_do_target. Qed.
+
+(* that summary in words: "-" without an overlapping row, otherwise the distinct names of the
+   overlapping rows (same chromosome, at least one base in common) joined by "," *)
+Theorem C12_annotate_label_spec : forall (annot : list grow) (b : grow),
+  (overlapping annot b = [] -> annot_label annot b = "-"%string) /\
+  (overlapping annot b <> [] ->
+   annot_label annot b = String.concat "," (Spec.RangeQuery.unique_scan (map gene (overlapping annot b))) /\
+   Spec.RangeQuery.is_distinct_of (Spec.RangeQuery.unique_scan (map gene (overlapping annot b)))
+                                  (map gene (overlapping annot b))) /\
+  (forall a, In a (overlapping annot b) <-> In a annot /\ chrom a = chrom b /\ lo a < hi b /\ lo b < hi a).
+Proof. exact Proofs.TargetAnnot.annot_label_spec. Qed.
+
+(* the precondition on the annotation table holds for every table a reader delivers *)
+Theorem C12_annotate_table_ok : forall (annot : list grow),
+  sorted_table annot -> Forall (fun r => 0 <= lo r < hi r) annot -> Spec.RangeQuery.table_ok (trows_of annot).
+Proof. exact Proofs.TargetAnnot.table_ok_trows. Qed.
+
+Example C12_annotate_example :
+  annotate [(99, 500, ("chr1", "GENEA")); (399, 900, ("chr1", "GENEB")); (449, 700, ("chr1", "GENEA"))]%string
+           [(0, 99, ("chr1", "a")); (100, 450, ("chr1", "b")); (899, 2000, ("chr1", "c")); (0, 10, ("chr3", "e"))]%string
+  = AnnotRows [(0, 99, ("chr1", "-")); (100, 450, ("chr1", "GENEA,GENEB")); (899, 2000, ("chr1", "GENEB"));
+               (0, 10, ("chr3", "-"))]%string.
+Proof. vm_compute. reflexivity. Qed.
+
+(* ---- label shortening, exactly ---------------------------------------------------------------------------
+   `pick` is the choice min(names, key=len) makes among the equally short names of a set (first in
+   iteration order); shorten_labels_pick is the code with that choice, shorten_labels the candidates *)
+
+(* whatever the iteration order, every emitted name is one of the candidates of its position *)
+Theorem C12_labels_candidates : forall pick labels,
+  pick_ok pick ->
+  Forall2 (fun name cands => In name cands) (shorten_labels_pick pick labels) (shorten_labels labels).
+Proof. exact Proofs.TargetLabels.shorten_labels_pick_in. Qed.
+
+(* where every position has a single candidate the output is that candidate for every order *)
+Theorem C12_labels_deterministic_when : forall pick labels,
+  pick_ok pick -> Forall (fun c => exists x, c = [x]) (shorten_labels labels) ->
+  map Some (shorten_labels_pick pick labels) = shorten_labels_det labels.
+Proof. exact Proofs.TargetLabels.shorten_labels_deterministic. Qed.
+
+(* a unique shortest name gives a single candidate *)
+Theorem C12_labels_unique_shortest : forall names x,
+  shortest_names names = [x] -> shortest_cands names = [strip_db x].
+Proof. exact Proofs.TargetLabels.unique_shortest_single. Qed.
+
+(* two equally short names: the output does depend on the order *)
+Theorem C12_labels_order_dependent :
+  exists (labels : list string) (pick1 pick2 : list string -> string),
+    pick_ok pick1 /\ pick_ok pick2 /\
+    shorten_labels labels = [["AB"; "CD"]]%string /\
+    shorten_labels_pick pick1 labels = ["AB"]%string /\ shorten_labels_pick pick2 labels = ["CD"]%string.
+Proof. exact Proofs.TargetLabels.shorten_labels_order_dependent. Qed.
+
+(* filter_names: a single name, or names that all start with "mRNA", are left alone; otherwise
+   exactly the names starting with "mRNA" are removed *)
+Theorem C12_filter_names : forall names,
+  ((length names <= 1)%nat -> filter_names names = names) /\
+  ((2 <= length names)%nat -> filter not_mrna names <> [] -> filter_names names = filter not_mrna names) /\
+  ((2 <= length names)%nat -> filter not_mrna names = [] -> filter_names names = names) /\
+  incl (filter_names names) names /\
+  (names <> [] -> filter_names names <> []).
+Proof. exact Proofs.TargetLabels.filter_names_spec. Qed.
+
+(* shortest_name: a shortest of the names filter_names leaves, with the DB| prefix of an accession removed *)
+Theorem C12_shortest_name : forall names x,
+  In x (shortest_cands names) <->
+  exists n, In n (filter_names names) /\ (forall m, In m (filter_names names) -> slen n <= slen m) /\
+            x = strip_db n.
+Proof. exact Proofs.TargetLabels.shortest_cands_spec. Qed.
+
+Example C12_shorten_example :
+  shorten_labels_det ["mRNA|JX093079,ens|ENST00000342066,mRNA|JX093077,ref|SAMD11,mRNA|AF161376,mRNA|JX093104";
+                      "ens|ENST00000483767,mRNA|AF161376,ccds|CCDS3.1,ref|NOC2L"]%string
+  = [Some "AF161376"; Some "AF161376"]%string.
+Proof. vm_compute. reflexivity. Qed.
+
+(* ---- the scalar arithmetic as translated from the source (Gen/FnBins.v, Gen/FnBinsSplit.v) -------------- *)
+
+(* min_bin_size = 2 * int(avg_bin_size * (2 ** MIN_REF_COVERAGE)), for every exp2 with 2 ** -5 = 1/32 *)
+Theorem C12_source_default_min : forall exp2 : Q -> Q,
+  (exp2 (-5 # 1) == 1 # 32)%Q -> forall avg,
+  default_min_size avg = Some (Gen.FnBins.fn_default_min exp2 avg Gen.BinsDefaults.MIN_REF_COVERAGE).
+Proof. exact Proofs.FnBins.fn_default_min_eq. Qed.
+
+(* if not min_bin_size: min_bin_size = <the default> *)
+Theorem C12_source_effective_min : forall exp2 : Q -> Q,
+  (exp2 (-5 # 1) == 1 # 32)%Q -> forall avg m,
+  effective_min avg (Some m) = Some (Gen.FnBins.fn_effective_min exp2 avg m Gen.BinsDefaults.MIN_REF_COVERAGE).
+Proof. exact Proofs.FnBins.fn_effective_min_eq. Qed.
+
+(* pad_size = 2 * INSERT_SIZE = 500; TELOMERE_SIZE = 150000 *)
+Theorem C12_source_pad_size : Gen.FnBins.fn_pad_size Gen.BinsDefaults.INSERT_SIZE = pad_size /\ pad_size = 500.
+Proof. exact Proofs.FnBins.fn_pad_size_eq. Qed.
+
+Theorem C12_source_telomere :
+  Gen.FnBins.fn_telomere_size = Gen.BinsDefaults.TELOMERE_SIZE /\ Gen.FnBins.fn_telomere_size = 150000.
+Proof. exact Proofs.FnBins.fn_telomere_eq. Qed.
+
+(* the scalar head of _split_targets' loop: span, the keep test, round(span / avg_size) [or 1] *)
+Theorem C12_source_split_scalar : forall (A : Type) (avg : Q) (mn : Z) (cut : Z -> Z -> Z -> Z) (r : @row A),
+  (0 < avg)%Q ->
+  let '(span, keep, count) := Gen.FnBinsSplit.fn_split_scalar (lo r) (hi r) avg mn in
+  span = hi r - lo r /\ keep = negb (span <? mn) /\
+  nbins_q avg span = (if count =? 0 then 1 else count) /\
+  split_row_q avg mn cut r =
+    (if keep then
+       let n := if count =? 0 then 1 else count in
+       if n =? 1 then [r] else bins_from (cut span n) (lo r) (lo r) 1 (Z.to_nat (n - 1)) (hi r) (pay r)
+     else []).
+Proof. exact @Proofs.FnBins.fn_split_scalar_eq. Qed.
+
+(* ---- number of bins: exact rule and floating point ---------------------------------------------------------- *)
+
+(* the model's integer rule is max(1, round-half-even(span / avg)) of the exact rational quotient *)
+Theorem C12_nbins_round : forall (avg : Q) (span : Z), (0 < avg)%Q -> 0 <= span ->
+  nbins_q avg span = Z.max 1 (round_half_even (inject_Z span / avg)).
+Proof. exact Proofs.FnBins.nbins_q_round. Qed.
+
+(* a float quotient q' that is a monotone rounding of the exact q and leaves half-integers fixed
+   (IEEE division) rounds to the same integer unless q' is exactly a tie and q is not: those
+   (span, avg) are the float-ambiguous pairs, and only a non-integer avg has any *)
+Theorem C12_nbins_float : forall q q' : Q,
+  rounding_of q q' -> (~ is_tie q' \/ (q == q')%Q) -> round_half_even q' = round_half_even q.
+Proof. exact Proofs.FnBins.round_half_even_rounding. Qed.
+
+(* ---- sizes without the restriction avg >= 4 --------------------------------------------------------------- *)
+
+(* for every positive average a bin is at most 3/2 avg (unsplit stretch) or 5/4 avg + 1 (split
+   stretch: the cut points are only known to within one base); hence at most 3/2 avg for every
+   integer average >= 2 as well *)
+Theorem C12_anti_sizes_upper : forall T access avg mn cut E out,
+  anti_pre T access avg cut -> effective_access T access = Some E ->
+  get_antitargets T access avg mn cut = Some out ->
+  forall b, In b out ->
+    ((inject_Z (hi b - lo b) <= (3 # 2) * avg)%Q \/ (inject_Z (hi b - lo b) <= (5 # 4) * avg + 1)%Q) /\
+    (Qden avg = 1%positive -> (2 <= avg)%Q -> (inject_Z (hi b - lo b) <= (3 # 2) * avg)%Q).
+Proof. exact Proofs.TargetSizes.c12_anti_sizes_upper. Qed.
+
+(* avg = 1: one base per bin, given exact cut points for evenly dividing stretches *)
+Theorem C12_anti_sizes_avg1 : forall T access mn cut E out,
+  anti_pre T access (inject_Z 1) cut -> (forall span n, cut_contract_exact span n (cut span n)) ->
+  effective_access T access = Some E ->
+  get_antitargets T access (inject_Z 1) mn cut = Some out ->
+  forall b, In b out -> hi b - lo b = 1.
+Proof. exact Proofs.TargetSizes.c12_anti_sizes_avg1. Qed.
+
+(* the boundary: for a small non-integer average the clause is false (bins are whole bases):
+   avg = 6/5, a stretch of 3 bases gives bins of 1 and 2 bases, 2 > 9/5 *)
+Theorem C12_anti_sizes_small_avg_refuted :
+  exists (T acc : list grow) (avg : Q) (mn : Z) (cut : Z -> Z -> Z -> Z) (out : list grow) (b : grow),
+    anti_pre T (Some acc) avg cut /\ (forall span n, cut_contract_exact span n (cut span n)) /\
+    get_antitargets T (Some acc) avg mn cut = Some out /\ In b out /\
+    ~ (inject_Z (hi b - lo b) <= (3 # 2) * avg)%Q.
+Proof. exact Proofs.TargetSizes.c12_anti_sizes_small_avg_refuted. Qed.
